@@ -16,7 +16,7 @@ def es_frame(rng, tc, cat, codes, df=17):
     f = gen.set_bits(f, 38, 40, cat)
     for k, c in enumerate(codes):
         f = gen.set_bits(f, 41 + 6 * k, 46 + 6 * k, c)
-    return f
+    return gen.selfsim_tail(rng, f)
 
 
 def bds20_frame(rng, codes, df=20):
@@ -24,7 +24,7 @@ def bds20_frame(rng, codes, df=20):
     f = gen.set_bits(f, 33, 40, 0x20)
     for k, c in enumerate(codes):
         f = gen.set_bits(f, 41 + 6 * k, 46 + 6 * k, c)
-    return f
+    return gen.selfsim_tail(rng, f)
 
 
 def vectors(ctx):
